@@ -365,6 +365,8 @@ def run_cli(fs, argv, log, inject=None):
     res['assemble_returned_seq'] = st.assemble_returned_seq
     res['assemble_entered_seq'] = st.assemble_entered_seq
     res['inject_fired'] = st.inject_fired
+    if hasattr(fs, 'finalize_leaked'):
+        fs.finalize_leaked()
     log.add('cli-end', res['outcome'], res['code'], (res['msg'] or '')[:160])
     return res
 
@@ -425,6 +427,8 @@ def run_api(fs, call, log, inject=None):
     out['lines_executed'] = st.count
     out['inject_fired'] = st.inject_fired
     out['objs'] = (c_obj, l_obj)
+    if hasattr(fs, 'finalize_leaked'):
+        fs.finalize_leaked()
     log.add('api-end', out.get('ok'), out.get('exc'), (out.get('msg') or '')[:120], out.get('file'), out.get('line'))
     return out
 
